@@ -273,6 +273,7 @@ def run(pid, args, seed, work, t0):
     try:
         import gen
         import oracles
+        import spec_tables
         import real  # noqa: F401
     except Exception as e:  # noqa
         # the package itself does not import: nothing can be decided about behaviour
@@ -328,7 +329,10 @@ def run(pid, args, seed, work, t0):
         if lr['disagreements']:
             broken.append({'kind': 'lane', 'what': 'correspondence lane %s: %d disagreement(s) between the model and the real code'
                            % (lr['lane'], len(lr['disagreements'])), 'detail': lr['disagreements'][:5]})
-    # ---- oracle = failing-input search on the real code
+    # ---- oracle = failing-input search on the real code. The oracles take their input domain (classes,
+    # argument types, constraints) from the specification transcription, not from the translated
+    # commands.py: what counts as a valid input must not move with the code under examination.
+    ctx.generated = dict(ctx.generated, catalogue=spec_tables.catalogue())
     ctx.gen = gen.Gen(seed + 1000003, literals)
     results = []
     gave_up = None
